@@ -42,8 +42,90 @@ VARIANTS = {
     "shiftin": "shift", "shift": "shift", "getEntry": "getEntry", "setEntry": "setEntry", "val": "val",
     "interp": "interpolate", "crt.torns": "crt_torns", "crt.toring": "crt_toring", "crt.toring.copy": "crt_toring",
 }
+# ---- call forms added in phase 3: variant -> (base variant whose generator is used, model operation,
+#      [(i, j)]: argument i is the same OBJECT as argument j in the C++ call, so the generated argument i is a copy of j)
+ALIAS_FORMS = {
+    "assign.self": ("assign", "assign", []), "diff.alias": ("diff", "diff", []), "reverse.alias": ("reverse", "reverse", []),
+    "add.alias2": ("add.rpq", "add", []), "add.self": ("add.rpq", "add", [(1, 0)]), "addin.self": ("addin", "addin", [(1, 0)]),
+    "add.rps.alias": ("add.rps", "add_s", []), "add.rsp.alias": ("add.rsp", "add_s", []),
+    "sub.alias1": ("sub.rpq", "sub", []), "sub.alias2": ("sub.rpq", "sub", []), "sub.self": ("sub.rpq", "sub", [(1, 0)]),
+    "subin.self": ("subin", "subin", [(1, 0)]), "sub.rps.alias": ("sub.rps", "sub_s", []), "sub.rsp.alias": ("sub.rsp", "s_sub", []),
+    "neg.alias": ("neg", "neg", []),
+    "mul.alias1": ("mul.rpq", "mul", []), "mul.alias2": ("mul.rpq", "mul", []), "mul.self": ("mul.rpq", "mul", [(1, 0)]),
+    "mul.aliasself": ("mul.rpq", "mul", [(1, 0)]), "mulin.self": ("mulin", "mulin", [(1, 0)]),
+    "stdmul.alias1": ("stdmul", "stdmul", []), "stdmul.alias2": ("stdmul", "stdmul", []),
+    "karamul.alias1": ("karamul", "karamul", []), "karamul.alias2": ("karamul", "karamul", []), "karamul.self": ("karamul", "karamul", [(1, 0)]),
+    "mul.rps.alias": ("mul.rps", "mul_s", []), "mul.rsp.alias": ("mul.rsp", "mul_s", []), "sqr.alias": ("sqr", "sqr", []),
+    "mul.trunc.alias1": ("mul.trunc", "mul_trunc", []), "mul.trunc.alias2": ("mul.trunc", "mul_trunc", []),
+    "midmul.alias1": ("midmul", "midmul", []), "midmul.alias2": ("midmul", "midmul", []),
+    "stdmidmul.alias1": ("stdmidmul", "midmul", []), "stdmidmul.alias2": ("stdmidmul", "midmul", []),
+    "karamidmul.alias1": ("karamidmul", "midmul", []), "karamidmul.alias2": ("karamidmul", "midmul", []),
+    "div.alias1": ("div.rpq", "div", []), "div.alias2": ("div.rpq", "div", []), "div.rps.alias": ("div.rps", "div_s", []),
+    "mod.alias1": ("mod.rpq", "mod", []), "mod.alias2": ("mod.rpq", "mod", []),
+    "divmod.aliasQA": ("divmod", "divmod", []), "divmod.aliasQB": ("divmod", "divmod", []),
+    "divmod.aliasRA": ("divmod", "divmod", []), "divmod.aliasRB": ("divmod", "divmod", []),
+    "divmodin.aliasQB": ("divmodin", "divmodin", []),
+    "pdivmod.aliasQA": ("pdivmod", "pdivmod", []), "pdivmod.aliasQB": ("pdivmod", "pdivmod", []),
+    "pdivmod.aliasRA": ("pdivmod", "pdivmod", []), "pdivmod.aliasRB": ("pdivmod", "pdivmod", []),
+    "pmod.aliasRA": ("pmod", "pmod", []), "pmod.aliasRB": ("pmod", "pmod", []),
+    "invmodpowx.alias": ("invmodpowx", "invmodpowx", []), "modpowx.alias": ("modpowx", "modpowx", []),
+    "gcd.2.alias1": ("gcd.2", "gcd", []), "gcd.2.alias2": ("gcd.2", "gcd", []),
+    "gcd.5.aliasFA": ("gcd.5", "gcdext", []), "gcd.5.aliasFB": ("gcd.5", "gcdext", []), "gcd.5.aliasSA": ("gcd.5", "gcdext", []),
+    "gcd.5.aliasSB": ("gcd.5", "gcdext", []), "gcd.5.aliasTA": ("gcd.5", "gcdext", []), "gcd.5.aliasTB": ("gcd.5", "gcdext", []),
+    "lcm.aliasA": ("lcm", "lcm", []), "lcm.aliasB": ("lcm", "lcm", []),
+    "invmod.alias1": ("invmod", "invmod", []), "invmod.alias2": ("invmod", "invmod", []),
+    "invmodunit.alias1": ("invmodunit", "invmodunit", []), "invmodunit.alias2": ("invmodunit", "invmodunit", []),
+    "pow.alias": ("pow", "pow", []), "powmod.i32": ("powmod.u32", "powmod", []),
+    "powmod.aliasWU": ("powmod", "powmod", []), "powmod.aliasWP": ("powmod", "powmod", []),
+    "axpy.aliasA": ("axpy", "axpy", []), "axpy.aliasX": ("axpy", "axpy", []), "axpy.aliasY": ("axpy", "axpy", []),
+    "axpy.s.aliasX": ("axpy.s", "axpy_s", []), "axpy.s.aliasY": ("axpy.s", "axpy_s", []),
+    "axpyin.aliasA": ("axpyin", "axpyin", [(1, 0)]),
+    "maxpy.aliasA": ("maxpy", "maxpy", []), "maxpy.aliasC": ("maxpy", "maxpy", []),
+    "maxpy.s.aliasB": ("maxpy.s", "maxpy_s", []), "maxpy.s.aliasC": ("maxpy.s", "maxpy_s", []),
+    "maxpyin.aliasA": ("maxpyin", "maxpyin", [(1, 0)]),
+    "axmy.aliasA": ("axmy", "axmy", []), "axmy.aliasY": ("axmy", "axmy", []),
+    "axmy.s.aliasX": ("axmy.s", "axmy_s", []), "axmy.s.aliasY": ("axmy.s", "axmy_s", []),
+    "axmyin.aliasA": ("axmyin", "axmyin", [(1, 0)]),
+    "interp.copy": ("interp", "interpolate", []), "interp.assign": ("interp", "interpolate", []), "interp.noreduce": ("interp", "interpolate", []),
+    "crt.toring.copy0": ("crt.toring", "crt_toring", []), "crt.toring.twice": ("crt.toring", "crt_toring", []),
+    "crt.torns.copy": ("crt.torns", "crt_torns", []),
+}
+# the same call made through a COPY-CONSTRUCTED Poly1Dom ("@c") and through a default-constructed, then ASSIGNED one ("@a")
+DOMAIN_COPY_BASES = ["mul.rpq", "karamul", "sqr", "midmul", "div.rpq", "divmod", "modin", "gcd.2", "gcd.5", "lcm", "invmod", "pow", "powmod",
+                     "invmodpowx", "axpy", "maxpyin", "add.rps", "sub.rsp", "eval", "monomial", "add.rps.Dzero", "mul.trunc", "pdivmod"]
+for _b in DOMAIN_COPY_BASES:
+    for _sfx in ("@c", "@a"):
+        ALIAS_FORMS[_b + _sfx] = (_b, VARIANTS[_b], [])
+# forms with a generator of their own (gen_new_form)
+NEW_FORMS = {
+    "init.empty": "assign", "init.cst": "init_cst", "init.deg": "monomial", "init.list": "init_list",
+    "assign.cst": "monomial", "assign.toval": "eval", "convert.val": "eval", "isOne": "isOne", "isMOne": "isMOne", "isUnit": "isUnit",
+    "inv": "div", "invin": "div", "newtoninviter": "newton_iter", "crt.recip": "crt_recip",
+}
+# the protected iterator-range helpers driven through struct Open of the harness on sub-ranges of padded containers
+RANGE_FORMS = {
+    "r.mul": "mul_r", "r.stdmul": "stdmul_r", "r.karamul": "karamul_r", "r.sqr": "sqr_r", "r.stdsqr": "stdsqr_r", "r.sqrrec": "sqrrec_r",
+    "r.subin3": "subin_range", "r.subin2": "subin_grow", "r.subin1": "subin_at",
+    "r.midmul": "midmul_r", "r.stdmidmul": "midmul_r", "r.karamidmul": "midmul_r",
+}
+for _v, (_b, _o, _c) in ALIAS_FORMS.items():
+    VARIANTS[_v] = _o
+VARIANTS.update(NEW_FORMS)
+VARIANTS.update(RANGE_FORMS)
 # call forms that exist only when the corresponding template member instantiates (see compile probes)
-OPTIONAL_VARIANTS = {"maxpy.s": "C08_HAVE_MAXPY_S", "shift": "C08_HAVE_SHIFT"}
+OPTIONAL_VARIANTS = {"maxpy.s": "C08_HAVE_MAXPY_S", "shift": "C08_HAVE_SHIFT", "maxpy.s.aliasB": "C08_HAVE_MAXPY_S", "maxpy.s.aliasC": "C08_HAVE_MAXPY_S"}
+# public declarations of givpoly1dense.h / givinterp.h / givpoly1crt.h that no variant drives, with the reason
+CALL_FORMS_NOT_DRIVEN = [
+    "Poly1Dom::pdiv(Rep&,Type_t&,const Rep&,const Rep&), pdiv(Rep&,const Rep&,const Rep&), pmod(Rep&,const Rep&,const Rep&): declared, defined nowhere (do not link)",
+    "Poly1Dom::convert(Vect<UU>&,const Rep&): template-template parameter Vect<XX> with one argument; std::vector<T,A> matches only with P0522 matching, not used by the library",
+    "Poly1Dom::modin(A,A) (divisor the same object as the dividend): reads the divisor while overwriting it, not a meaningful call",
+    "Poly1Dom::characteristic/cardinality/operator==/operator!=/getIndeter/setIndeter/subdomain/getdomain/setdomain/...: accessors, no arithmetic",
+    "Poly1Dom::read/write: text I/O, outside the property", "Poly1Dom::random/nonzerorandom: generators, outside the property",
+    "Poly1Dom::ratrecon/ratreconcheck, sqrfree, cyclotomic, factor/proot layers: not named by the property",
+    "Poly1CRT::Poly1CRT(): cannot be instantiated (value-initialises the reference member _F)",
+    "Poly1CRT::read/write/getdomain/getpolydom: accessors and text I/O",
+    "NewtonInterpGeom (givinterpgeom.h), Poly1PadicDom (givpoly1padic.h): other classes, not run by this check",
+]
 # argument kinds of each model operation: P polynomial, S scalar (field element), N natural number, L list of field elements
 SIG = {
     "setdegree": "P", "degree": "P", "leadcoef": "P", "isZero": "P", "areEqual": "PP", "assign": "P", "monomial": "NS",
@@ -57,9 +139,22 @@ SIG = {
     "mul_trunc": "PPNN", "midmul": "PP", "power_compose": "PN", "div_sp": "SP", "mod_sp": "SP", "mod_ps": "PS", "modpowx": "PN",
     "isDivisor": "PP", "maxpy_s": "SPP", "shift": "PN", "getEntry": "PN", "setEntry": "PSN", "val": "P",
     "interpolate": "LL", "crt_torns": "LP", "crt_toring": "LL",
+    # phase 3.  Range helpers: (n, P, Q, a, b) = result range of n entries, operand ranges P and Q, a junk entries before
+    # and b junk entries after every range inside its container
+    "mul_r": "NPPNN", "stdmul_r": "NPPNN", "karamul_r": "NPPNN", "sqr_r": "PNN", "stdsqr_r": "PNN", "sqrrec_r": "PNN",
+    "subin_range": "PPNN", "subin_grow": "PPNN", "subin_at": "PPNNN", "midmul_r": "PPNN",
+    "init_cst": "S", "init_list": "P", "isOne": "P", "isMOne": "P", "isUnit": "P", "newton_iter": "PPN", "crt_recip": "LN",
 }
 # operations without a Gallina model: judged by the specification oracle only (labelled in the evidence)
-NO_MODEL = {"midmul", "mod_ps", "maxpy_s", "shift", "getEntry", "setEntry", "val"}
+NO_MODEL = {"midmul", "mod_ps", "maxpy_s", "shift", "getEntry", "setEntry", "val",
+            "midmul_r", "init_cst", "init_list", "isOne", "isMOne", "isUnit", "newton_iter", "crt_recip"}
+# range helpers whose Gallina wrappers / driver.ml entries are not there yet (remove an op from this set once the driver knows it)
+NO_MODEL_YET = {"mul_r", "stdmul_r", "karamul_r", "sqr_r", "stdsqr_r", "sqrrec_r", "subin_range", "subin_grow", "subin_at"}
+NO_MODEL |= NO_MODEL_YET
+# operations whose result is a RAW vector (range helpers: no normalisation promised) or a documented unnormalised form
+# (init(P, 0) = [0], init(P, {..}) keeps the list as given): value compared entry by entry, normal form not required
+RAW_RESULT = {"mul_r", "stdmul_r", "karamul_r", "sqr_r", "stdsqr_r", "sqrrec_r", "subin_range", "subin_grow", "subin_at", "midmul_r",
+              "init_cst", "init_list", "crt_recip"}
 # Normal form of results: with operands in normal form EVERY polynomial result must carry no leading zero coefficient
 # (the property's last sentence).  STRICT_NORMAL lists the operations whose body always ended in setdegree / assign; the
 # others (add, sub, scalar forms, scalar products, diff, scalar fused forms) were repaired by fix-10 / fix-11 and report
@@ -384,16 +479,66 @@ def spec_check(op, p, args, out):
     if op == "crt_torns":
         e = [peval(a[1], x, p) for x in a[0]]
         return ([int(t) for t in out[0].split(",")] == e, ",".join(str(c) for c in e), "value")
+    # ---- phase 3
+    def raw(exp, klass="value"):
+        if out[0] in ("PADBROKEN", "SRCBROKEN"):
+            return (False, fmt_poly(exp) + " and untouched neighbours", "writes-outside-its-range")
+        return (parse_poly(out[0]) == list(exp), fmt_poly(exp), klass)
+    if op in ("mul_r", "stdmul_r", "karamul_r"):
+        full = conv_raw(a[1], a[2], p)
+        return raw([full[i] if i < len(full) else 0 for i in range(a[0])])
+    if op in ("sqr_r", "stdsqr_r", "sqrrec_r"):
+        return raw(conv_raw(a[0], a[0], p))
+    if op == "midmul_r":
+        n = len(a[1]); m = len(a[0]) - n + 1
+        return raw(conv_raw(a[0], a[1], p)[n - 1:n - 1 + m])
+    if op in ("subin_range", "subin_grow"):
+        R, P = a[0], a[1]
+        if op == "subin_range" and not P:
+            return raw(list(R))
+        d = [((R[i] if i < len(R) else 0) - (P[i] if i < len(P) else 0)) % p for i in range(max(len(R), len(P)))]
+        if op == "subin_grow" or len(R) < len(P):
+            return raw(norm(d))          # the growing form ends in setdegree
+        return raw(d)                    # the in-place form keeps the size of R
+    if op == "subin_at":
+        R = list(a[0])
+        for j, c in enumerate(a[1]):
+            R[a[2] + j] = (R[a[2] + j] - c) % p
+        return raw(R)
+    if op == "init_cst":
+        return raw([a[0] % p])
+    if op == "init_list":
+        return raw([c % p for c in a[0]])
+    if op in ("isOne", "isMOne", "isUnit"):
+        P = norm(a[0])
+        e = {"isOne": P == [1 % p], "isMOne": P == [(p - 1) % p], "isUnit": len(P) == 1}[op]
+        return (int(out[0]) == int(e), str(int(e)), "value")
+    if op == "newton_iter":
+        G, A, i = a[0], a[1], a[2]
+        t = conv_raw(A[:i], conv_raw(G, G, p), p)
+        t = [t[k] if k < len(t) else 0 for k in range(i)]
+        return eq(psub(padd(G, G, p), t, p))
+    if op == "crt_recip":
+        pts, k = a[0], a[1]
+        prod = [1 % p]
+        den = 1
+        for j in range(k):
+            prod = conv_raw(prod, [(-pts[j]) % p, 1], p)
+            den = (den * (pts[k] - pts[j])) % p
+        e = [(c * inv(den, p)) % p for c in prod]
+        ok = (parse_poly(out[0]) == e and int(out[1]) == len(pts) and int(out[2]) == pts[k] % p
+              and parse_poly(out[3]) == [x % p for x in pts] and int(out[4]) == len(pts) + 1)
+        return (ok, "%s %d %d %s %d" % (fmt_poly(e), len(pts), pts[k] % p, fmt_poly(pts), len(pts) + 1), "value")
     raise KeyError(op)
 
 
 POLY_RESULT_POS = {"divmod": [0, 1], "divmodin": [0, 1], "pdivmod": [0, 1], "pmod": [0], "gcdext": [0, 1, 2]}
-SCALAR_RESULT = {"degree", "leadcoef", "isZero", "areEqual", "eval", "isDivisor", "getEntry", "val", "crt_torns"}
+SCALAR_RESULT = {"degree", "leadcoef", "isZero", "areEqual", "eval", "isDivisor", "getEntry", "val", "crt_torns", "isOne", "isMOne", "isUnit"}
 
 
 def normal_check(op, out):
     """True when every polynomial in the raw output is in normal form (no leading zero coefficient)"""
-    if op in SCALAR_RESULT:
+    if op in SCALAR_RESULT or op in RAW_RESULT:
         return True
     for i in POLY_RESULT_POS.get(op, [0]):
         P = parse_poly(out[i])
@@ -433,24 +578,77 @@ def sizes_for(rng, thr, big):
     return rng.choice(c)
 
 
+def gen_new_form(rng, variant, op, p, thr, big):
+    """generators of the phase-3 call forms that have no base variant"""
+    c = lambda: rng.choice([0, 1, p - 1, rng.below(p)])
+    if variant == "init.empty":
+        return [[]]
+    if variant == "init.cst":
+        return [c()]
+    if variant == "init.deg":
+        return [rng.choice([0, 1, 2, 5, 9]), 1]
+    if variant == "init.list":
+        return [[c() for _ in range(rng.below(6))]]
+    if variant == "assign.cst":
+        return [0, c()]
+    if variant in ("assign.toval", "convert.val"):
+        A = rand_poly(rng, p, rng.choice([0, 1, 2, 5]))
+        if A and rng.chance(1, 3):
+            A[0] = 0
+        return [A if (A and A[-1]) or not A else [1], 0]
+    if variant in ("isOne", "isMOne", "isUnit"):
+        return [rng.choice([[], [1], [p - 1], [c()], [1, 0], [p - 1, 0, 0], [1, 1], [0], [0, 0], rand_poly(rng, p, 3)])]
+    if variant in ("inv", "invin"):
+        B = rng.choice([[1], [p - 1], [1 + rng.below(p - 1)], [1 + rng.below(p - 1), 0], rand_poly(rng, p, 2), rand_poly(rng, p, 4)])
+        return [[1], B]
+    if variant == "newtoninviter":
+        G = rand_poly(rng, p, rng.choice([0, 1, 1, 2, 3, 5, thr + 1 if thr < 10 else 4]), 0)
+        A = rand_poly(rng, p, rng.choice([1, 2, 3, 5, 8, 9, 2 * thr + 2 if thr < 10 else 7]), rng.choice([0, 0, 1, 4]))
+        return [G, A, rng.choice([0, 1, 2, 3, 4, len(A), len(A) + 2, 8, 9])]
+    if variant == "crt.recip":
+        n = min(p, rng.choice([2, 3, 4, 6]))
+        return [distinct_points(rng, p, n), rng.range(1, n - 1)]
+    raise KeyError(variant)
+
+
+def gen_any(rng, variant, p, thr, big):
+    """one generated case (variant, op, args) for any call form except the range helpers"""
+    op = VARIANTS[variant]
+    if variant in NEW_FORMS:
+        return (variant, op, gen_new_form(rng, variant, op, p, thr, big))
+    if variant in ALIAS_FORMS:
+        base, op, same = ALIAS_FORMS[variant]
+        _, _, _, a = gen_case(rng, base, op, SIG[op], p, thr, big)
+        for i, j in same:
+            a[i] = list(a[j])
+        if variant == "powmod.i32":
+            a[1] %= 1 << 31
+        return (variant, op, a)
+    _, _, _, a = gen_case(rng, variant, op, SIG[op], p, thr, big)
+    return (variant, op, a)
+
+
 def gen_cases(rng, tier, thr, big, per, fields, have):
     cases = []
     for variant, op in sorted(VARIANTS.items()):
         if variant in OPTIONAL_VARIANTS and not have.get(OPTIONAL_VARIANTS[variant]):
             continue
-        sig = SIG[op]
-        for i in range(per):
+        if variant in RANGE_FORMS:
+            continue                      # the range helpers have a deterministic stream of their own (range_cases)
+        secondary = variant in ALIAS_FORMS or variant in NEW_FORMS
+        n = per if not secondary else max(len(fields), per // 2 if not big else per // 3)
+        for i in range(n):
             fk, p = fields[i % len(fields)] if i < len(fields) else rng.choice(fields)
             if p >= 2 ** 40:
                 # multi-word coefficients: the extracted model does its modular reductions bit by bit on the inductive Z;
                 # keep the operands small, except for a few products across the real switch point
-                if thr > 2 and op in ("mul", "stdmul", "karamul", "mulin", "sqr") and i % 3 == 0:
-                    a = [rand_poly(rng, p, rng.choice([thr, thr + 1, thr + 2, thr + 3])) for ch in sig]
+                if thr > 2 and op in ("mul", "stdmul", "karamul", "mulin", "sqr") and i % 3 == 0 and not secondary:
+                    a = [rand_poly(rng, p, rng.choice([thr, thr + 1, thr + 2, thr + 3])) for ch in SIG[op]]
                     v, o = variant, op
                 else:
-                    v, o, _, a = gen_case(rng, variant, op, sig, p, 2, False)
+                    v, o, a = gen_any(rng, variant, p, 2, False)
             else:
-                v, o, _, a = gen_case(rng, variant, op, sig, p, thr, big)
+                v, o, a = gen_any(rng, variant, p, thr, big)
             cases.append((v, o, fk, p, a))
     return cases
 
@@ -607,7 +805,7 @@ def gen_case(rng, variant, op, sig, p, thr, big):
                 B[-1] = 1 if len(B) < 8 else B[-1] or 1
                 if len(B) < 2:
                     B = [1, 1]
-            lim = {"powmod": None, "powmod.u64": 1 << 64, "powmod.i64": 1 << 63, "powmod.u32": 1 << 32}[variant]
+            lim = {"powmod": None, "powmod.u64": 1 << 64, "powmod.i64": 1 << 63, "powmod.u32": 1 << 32}.get(variant)
             return (variant, op, p, [A, e if lim is None else e % lim, B])
         return (variant, op, p, [A, B])
     for ch in sig:
@@ -864,6 +1062,304 @@ def structured_cases(rng, tier, thr, fields):
     return cases
 
 
+# ------------------------------------------------------------------ deterministic streams (phase 3)
+# Every CLASS below (size, shape, partner, pad, call form, field, threshold setting) is enumerated on every run and for
+# every seed; only the coefficient VALUES inside a shape come from the seeded generator.
+SHAPES = ["1+X^h, #A=h (equal halves)", "1+X^h, #A<h", "1-X^h, #A=h (negated halves)", "1-X^h, #A<h", "low half zero",
+          "high half zero except the leading coefficient", "middle block zero", "palindrome", "monomial", "1+X^(n-1)",
+          "all coefficients equal", "four equal blocks", "dense"]
+
+
+def shape_poly(rng, p, n, shape):
+    """exactly n coefficients (n >= 1) of the given shape, leading coefficient non-zero"""
+    nz = lambda: 1 + rng.below(p - 1)
+    dense = lambda k: [rng.below(p) for _ in range(k - 1)] + [nz()] if k > 0 else []
+    h = n // 2
+    if n == 1:
+        return [nz()]
+    if shape in (0, 2):
+        U = dense(h)
+        V = U if shape == 0 else [(-c) % p for c in U]
+        P = U + V + ([nz()] if n % 2 else [])
+    elif shape in (1, 3):
+        k = max(1, h - 1)
+        U = dense(k)
+        V = U if shape == 1 else [(-c) % p for c in U]
+        P = U + [0] * (n - 2 * k) + V
+    elif shape == 4:
+        P = [0] * h + dense(n - h)
+    elif shape == 5:
+        P = dense(h) + [0] * (n - h - 1) + [nz()]
+    elif shape == 6:
+        q = max(1, n // 3)
+        P = dense(q) + [0] * (n - 2 * q) + dense(q)
+    elif shape == 7:
+        U = dense(n - h)
+        U[0] = nz()
+        P = U + list(reversed(U[:h]))
+    elif shape == 8:
+        P = [0] * (n - 1) + [nz()]
+    elif shape == 9:
+        P = [nz()] + [0] * (n - 2) + [nz()]
+    elif shape == 10:
+        P = [nz()] * n
+    elif shape == 11:
+        q = max(1, n // 4)
+        P = (dense(q) * 4 + [nz()] * 3)[:n]
+    else:
+        P = dense(n)
+    P = (list(P) + [0] * n)[:n]
+    if P[-1] % p == 0:
+        P[-1] = nz()
+    return P
+
+
+PADS = [(0, 0), (1, 0), (0, 2), (3, 1)]
+HALF_SHAPES = [12, 0, 4, 2, 5]      # dense, equal halves, one half zero (low / high), negated halves
+
+
+def range_cases(rng, thr, fields, real):
+    """the protected range helpers on sub-ranges of padded containers (struct Open of the harness)"""
+    cases = []
+    add = lambda v, fk, p, a: cases.append((v, RANGE_FORMS[v], fk, p, a))
+    if real:
+        sizes = [thr - 1, thr, thr + 1, thr + 2, 2 * thr - 1, 2 * thr, 2 * thr + 1, 2 * thr + 3]
+    else:
+        sizes = list(range(1, 10))
+    for fi, (fk, p) in enumerate(fields):
+        bigp = p >= 2 ** 40
+        # ---- products on ranges
+        if bigp:
+            pairs = [(3, 3), (4, 5), (5, 2)] if not real else [(thr + 1, thr + 2)]
+        elif real:
+            pairs = [(sP, sQ) for sP in sizes for sQ in (sP, thr + 1, 2 * thr + 3)]
+        else:
+            pairs = [(sP, sQ) for sP in sizes for sQ in sizes if fi < 2 or (sP + 2 * sQ + fi) % 3 == 0]
+        for k, (sP, sQ) in enumerate(pairs):
+            half = min(sP // 2, sQ // 2)
+            ns = sorted(set(n for n in [1, half, 2 * half - 1, 2 * half, 2 * half + 1, sP + sQ - 2, sP + sQ - 1, sP + sQ + 1] if n >= 1))
+            if bigp:
+                ns = [ns[0], ns[len(ns) // 2], sP + sQ - 1]
+            for j, n in enumerate(ns):
+                a, b = PADS[(k + j + fi) % 4]
+                P = shape_poly(rng, p, sP, HALF_SHAPES[(k + j) % 5]); Q = shape_poly(rng, p, sQ, HALF_SHAPES[(k + 2 * j + 1) % 5])
+                add("r.mul", fk, p, [n, P, Q, a, b])
+                # forcing the first Karatsuba level on a size-1 operand with a truncated result is outside the helper's domain
+                # (half = 0: PHQH is never computed although `rrems < highs`); public callers never do that
+                kara_ok = min(sP, sQ) >= 2 or n >= sP + sQ - 1
+                if (k + j) % 2 == 0 and kara_ok:
+                    add("r.karamul", fk, p, [n, P, Q, PADS[(k + j + fi + 1) % 4][0], PADS[(k + j + fi + 1) % 4][1]])
+                else:
+                    add("r.stdmul", fk, p, [n, P, Q, a, b])
+        # ---- squares on ranges: result range of exactly 2 len - 1 entries
+        lens = ([2, 3] if not real else [thr + 1]) if bigp else (sizes if real else sizes + [12, 17])
+        for k, n in enumerate(lens):
+            for j, (a, b) in enumerate(PADS):
+                if bigp and j not in (0, 3):
+                    continue
+                P = shape_poly(rng, p, n, HALF_SHAPES[(k + j + fi) % 5])
+                add("r.sqr", fk, p, [P, a, b])
+                add("r.stdsqr", fk, p, [P, a, b])
+                if n >= 2:
+                    add("r.sqrrec", fk, p, [P, a, b])
+        # ---- middle products on ranges: P of m + n - 1 entries, Q of n, result m; karamidmul balanced (m = n)
+        if not bigp:
+            qs = [thr - 1, thr, thr + 1, thr + 2, thr + 3, 75, 2 * thr + 1, 2 * thr + 3] if real else sizes
+            for k, n in enumerate(qs):
+                ms = [n, thr + 1, n + 1] + ([2 * n + 1] if n <= thr + 3 else []) if real else [1, 2, 3, max(1, n - 1), n, n + 1, 2 * n, 2 * n + 1, 3 * n + 2]
+                for j, m in enumerate(sorted(set(ms))):
+                    a, b = PADS[(k + j + fi) % 4]
+                    P = shape_poly(rng, p, m + n - 1, HALF_SHAPES[(k + j) % 5]); Q = shape_poly(rng, p, n, HALF_SHAPES[(j + fi) % 5])
+                    if (k + j) % 3 == 0:
+                        P[-1] = 0           # raw sizes are what counts
+                    add("r.midmul", fk, p, [P, Q, a, b])
+                    add("r.stdmidmul", fk, p, [P, Q, a, b])
+                    if m == n:
+                        add("r.karamidmul", fk, p, [P, Q, PADS[(k + fi + 1) % 4][0], PADS[(k + fi + 1) % 4][1]])
+        # ---- the three range forms of subin
+        if not real or fi < 2:
+            for sR in [0, 1, 2, 3, 5]:
+                for sPp in [0, 1, 2, 3, 5, 6]:
+                    for j, (a, b) in enumerate(PADS):
+                        kind = (sR + sPp + j + fi) % 4
+                        R = [rng.below(p) for _ in range(sR)]; P = [rng.below(p) for _ in range(sPp)]
+                        if R:
+                            R[-1] = 1 + rng.below(p - 1)
+                        if P:
+                            P[-1] = 1 + rng.below(p - 1)
+                        if kind == 1:              # the common part cancels
+                            for i in range(min(sR, sPp)):
+                                P[i] = R[i]
+                        elif kind == 2 and P:      # P with zero top entries: the growing form must strip
+                            P[-1] = 0
+                            if sPp > 2:
+                                P[-2] = 0
+                        elif kind == 3 and R:
+                            R[-1] = 0
+                        add("r.subin3", fk, p, [R, P, a, b])
+                        if sPp >= sR:
+                            add("r.subin2", fk, p, [R, P, a, b])
+                        for off in sorted(set([0, 1, sR - sPp])):
+                            if 0 <= off and off + sPp <= sR:
+                                add("r.subin1", fk, p, [R, P, off, a, b])
+    return cases
+
+
+def det_sizes(thr):
+    if thr >= 10:
+        return [thr - 1, thr, thr + 1, thr + 2, 2 * thr, 2 * thr + 1, 2 * thr + 2, 2 * thr + 4]
+    return sorted(set([thr - 1, thr, thr + 1, thr + 2, 2 * thr, 2 * thr + 1, 2 * thr + 2, 4 * thr, 4 * thr + 1]))
+
+
+def partner_poly(rng, p, n, shape, kind, thr):
+    """partners: same size dense, same shape, size - 1, size + 1, twice the size, thr + 1"""
+    if kind == 0:
+        return shape_poly(rng, p, n, 12)
+    if kind == 1:
+        return shape_poly(rng, p, n, shape)
+    if kind == 2:
+        return shape_poly(rng, p, max(1, n - 1), 12)
+    if kind == 3:
+        return shape_poly(rng, p, n + 1, 12)
+    if kind == 4:
+        return shape_poly(rng, p, 2 * n, 12)
+    return shape_poly(rng, p, thr + 1, 12)
+
+
+def det_product_cases(rng, thr, fields):
+    """structured operands x sizes around the switch points x partners, for every product algorithm, every field"""
+    cases = []
+    sizes = det_sizes(thr)
+    real = thr >= 10
+    second = ["karamul", "mulin", "stdmul", "mul.empty", "mul.alias1", "karamul.alias2"]
+    squares = ["sqr", "sqr.alias", "mul.self", "karamul.self", "mulin.self", "mul.aliasself"]
+    fused = ["axpy", "maxpy", "axmy", "axpyin", "maxpyin", "axmyin"]
+    mids = ["midmul", "stdmidmul", "karamidmul"]
+    for fi, (fk, p) in enumerate(fields):
+        if p >= 2 ** 40:
+            # multi-word coefficients: a few small cases only (the extracted model is slow on them)
+            for shi in (0, 2, 6):
+                n = thr + 2 if not real else thr + 1
+                A = shape_poly(rng, p, n, shi); B = shape_poly(rng, p, n, 12)
+                cases.append(("mul.rpq", "mul", fk, p, [A, B]))
+                cases.append(("sqr", "sqr", fk, p, [A]))
+            continue
+        for si, n in enumerate(sizes):
+            for shi in range(len(SHAPES)):
+                A = shape_poly(rng, p, n, shi)
+                pk = (si + shi + fi) % 6
+                B = partner_poly(rng, p, n, shi, pk, thr)
+                a = [A, B] if (si + shi) % 2 == 0 else [B, A]
+                cases.append(("mul.rpq", "mul", fk, p, a))
+                v = second[(si + 2 * shi + fi) % 6]
+                B2 = partner_poly(rng, p, n, shi, (pk + 1 + si) % 6, thr)
+                cases.append((v, VARIANTS[v], fk, p, [A, B2] if shi % 2 else [B2, A]))
+                v = squares[(si + shi + fi) % 6]
+                cases.append((v, VARIANTS[v], fk, p, [A] if SIG[VARIANTS[v]] == "P" else [A, list(A)]))
+                if real and (si + shi + fi) % 2:
+                    continue                      # real thresholds: the remaining forms on every second combination
+                v = fused[(si + shi) % 6]
+                y = [[], shape_poly(rng, p, n, 12), shape_poly(rng, p, len(A) + len(B) - 1, 12)][(si + shi + fi) % 3]
+                cases.append((v, VARIANTS[v], fk, p, [A, B, y] if v in ("axpy", "maxpy", "axmy") else [y, A, B]))
+                top = len(A) + len(B) - 2
+                v0 = [0, 1, len(B) - 1, len(A), top // 2, top][(si + shi) % 6]
+                d0 = [top, top + 1, max(v0, len(A) - 1), v0][(shi + fi) % 4]
+                cases.append(("mul.trunc", "mul_trunc", fk, p, [A, B, min(v0, top + 1), max(v0, d0)]))
+                v = mids[(si + shi + fi) % 3]
+                m = n if v == "karamidmul" else [n, n + 1, max(1, n - 1), 2 * n + 1, max(1, n // 2), thr + 1][(si + shi) % 6]
+                if real and v != "stdmidmul":
+                    m = min(m, 2 * thr + 5)
+                Pm = shape_poly(rng, p, m + n - 1, [12, shi][(si + fi) % 2])
+                cases.append((v, "midmul", fk, p, [Pm, A]))
+                if n <= thr + 2 and (not real or shi % 4 == 0):
+                    cases.append(("pow", "pow", fk, p, [A, [2, 3, 5, 4][(si + shi) % 4] if not real else 2 + shi % 2]))
+    return cases
+
+
+Q_KINDS = ["constant term 0", "X^k", "c*X", "zero low block", "zero middle block", "all coefficients equal", "dense"]
+R_KINDS = ["0", "full degree deg B - 1", "low degree", "zero low block"]
+B_KINDS = ["monic", "non-monic", "X^k+1", "zero constant term", "X^k"]
+
+
+def det_division_cases(rng, thr, fields):
+    """A = B*Q + R from structured Q and R, deg A - deg B + 1 around powers of two and around the threshold, for every
+    division form and the gcd family (through its first quotient), every field"""
+    cases = []
+    real = thr >= 10
+    qsizes = [1, 2, 3, 4, 5, 7, 8, 9, 15, 16, 17, 31, 32, 33] + ([thr - 1, thr, thr + 1, thr + 2, 64, 65] if real else [6])
+    bsizes = [2, 7, thr + 1, thr + 2, thr + 10] if real else [2, 3, 4, 6, 9]
+    rot1 = ["div.rpq", "divin", "mod.rpq", "divmodin", "isDivisor", "div.alias1", "mod.alias2", "divmod.aliasRA", "divmod.aliasQB", "divmodin.aliasQB"]
+    rot2 = ["pdivmod", "pmod", "pdivmod.aliasQA", "pmod.aliasRB"]
+    rot3 = ["gcd.2", "gcd.5", "lcm", "invmod", "invmodunit", "gcd.5.aliasFA", "lcm.aliasB"]
+    nz = lambda p: 1 + rng.below(p - 1)
+    for fi, (fk, p) in enumerate(fields):
+        bigp = p >= 2 ** 40
+        for qi, nq in enumerate(qsizes):
+            if bigp and nq not in (2, 5, 9):
+                continue
+            for qk in range(len(Q_KINDS)):
+                if bigp and qk not in (0, 1, 4):
+                    continue
+                if real and qk in (2, 5) and (qi + fi) % 2:
+                    continue
+                rk = (qi + qk + fi) % 4
+                bk = (qi + 2 * qk + fi) % 5
+                nb = bsizes[(qi + qk) % 5] if not bigp else [2, 3, 4][(qi + qk) % 3]
+                # ---- Q
+                if qk == 1 or (qk == 2 and nq != 2 and qi % 2):
+                    Q = [0] * (nq - 1) + [1]
+                elif qk == 2 and nq == 2:
+                    Q = [0, nz(p)]
+                elif qk in (0, 2):
+                    Q = [0] + [rng.below(p) for _ in range(nq - 2)] + [nz(p)] if nq > 1 else [nz(p)]
+                elif qk == 3:
+                    Q = shape_poly(rng, p, nq, 4)
+                elif qk == 4:
+                    Q = shape_poly(rng, p, nq, 6)
+                elif qk == 5:
+                    Q = shape_poly(rng, p, nq, 10)
+                else:
+                    Q = shape_poly(rng, p, nq, 12)
+                # ---- B (nb coefficients, nb >= 2)
+                if bk == 0:
+                    B = [rng.below(p) for _ in range(nb - 1)] + [1]
+                elif bk == 1:
+                    B = [rng.below(p) for _ in range(nb - 1)] + [nz(p) if p == 2 else 2 + rng.below(p - 2)]
+                elif bk == 2:
+                    B = [1] + [0] * (nb - 2) + [1]
+                elif bk == 3:
+                    B = [0] + [rng.below(p) for _ in range(nb - 2)] + [nz(p)]
+                else:
+                    B = [0] * (nb - 1) + [1]
+                # ---- R (fewer than nb - 1 + 1 coefficients)
+                if rk == 0:
+                    R = []
+                elif rk == 1:
+                    R = [rng.below(p) for _ in range(nb - 2)] + [nz(p)]
+                elif rk == 2:
+                    R = [nz(p)] if nb < 4 else [rng.below(p), nz(p)]
+                else:
+                    R = norm([0] * ((nb - 1) // 2) + [rng.below(p) for _ in range(nb - 2 - (nb - 1) // 2)] + [nz(p)])[:nb - 1]
+                A = padd(pmul(B, Q, p), R, p)
+                if not A:
+                    continue
+                k = qi + qk + fi
+                cases.append(("divmod", "divmod", fk, p, [A, B]))
+                cases.append(("modin", "modin", fk, p, [A, B]))
+                v = rot1[k % len(rot1)]
+                cases.append((v, VARIANTS[v], fk, p, [A, B]))
+                if nq <= 17 or (k % 3 == 0 and not bigp):
+                    v = rot2[k % len(rot2)]
+                    cases.append((v, VARIANTS[v], fk, p, [A, B]))
+                if (nb <= 9 or (qi + qk) % 4 == 0) and not bigp:
+                    v = rot3[k % len(rot3)]
+                    if VARIANTS[v] in ("invmod", "invmodunit") and len(pgcd(A, B, p)) != 1:
+                        v = "gcd.5"
+                    a = [A, B] if k % 2 == 0 or VARIANTS[v] in ("invmod", "invmodunit") else [B, A]
+                    cases.append((v, VARIANTS[v], fk, p, a))
+    return cases
+
+
 # exponents across the word boundaries of every integer type an exponent may travel through
 def boundary_exponents(rng):
     sparse = (1 << 128) + (1 << 64) + 1
@@ -967,22 +1463,24 @@ def build_all(fieldkeys_small, fieldkeys_real, have, extra_thr=None):
     return bins, logs
 
 
-HANGS = [0]      # hangs seen so far in this run (all binaries)
+HANGS = [0]      # confirmed hangs seen so far in this run (all binaries)
+INCONCLUSIVE = []  # tooling time-outs and slow answers: recorded in the evidence, never a verdict
 
 
 def run_binary(binary, lines, timeout=60):
     """run the implementation harness on the lines; a crash or a hang costs the case it died on, the rest is
-    re-submitted.  A hang is cut after `timeout` seconds (20 s for the re-submissions); after 3 hangs the remaining
-    cases of this binary are given up.  returns (outputs or None for a lost case, [(index, rc)], thr header)"""
+    re-submitted.  A batch that does not finish within `timeout` seconds is cut; the case it was working on is then
+    re-run ALONE with a generous time-out (120 s, 60 s once a hang has been confirmed in this run): if it answers, the
+    answer is used (the machine was slow, not the code); only if it still does not answer is it a hang.  After 2
+    confirmed hangs of this binary (3 in the run) the remaining cases are given up.
+    returns (outputs or None for a lost case, [(index, rc)], thr header)"""
     outs = [None] * len(lines)
     crashed = []
     start = 0
     hdr = None
     hangs = 0
-    if HANGS[0] > 0:
-        timeout = min(timeout, 15)      # a hang was already seen in this run: do not wait long again
     while start < len(lines):
-        rc, o, err = vf.run_lines(binary, "".join(lines[start:]), timeout=timeout)
+        rc, o, err = vf.run_lines(binary, "".join(lines[start:]), timeout=timeout if HANGS[0] == 0 else min(timeout, 20))
         h = [l for l in o if l.startswith("#thr")]
         if h:
             hdr = h[0]
@@ -993,15 +1491,23 @@ def run_binary(binary, lines, timeout=60):
             break
         k = start + len(o)
         if k < len(lines):
-            crashed.append((k, "hang" if rc == 124 else rc))
-        if rc == 124:
-            hangs += 1
-            HANGS[0] += 1
-            timeout = 15
-            if hangs >= 3 or HANGS[0] >= 8:
-                for j in range(k + 1, len(lines)):
-                    crashed.append((j, "not-run-after-3-hangs"))
-                break
+            if rc == 124:
+                rc1, o1, _ = vf.run_lines(binary, lines[k], timeout=120 if HANGS[0] == 0 else 60)
+                o1 = [l for l in o1 if not l.startswith("#")]
+                if rc1 == 0 and len(o1) == 1:
+                    outs[k] = o1[0]
+                    INCONCLUSIVE.append("batch of %d cases cut after its time-out; case answered when run alone: %s" % (len(lines) - start, lines[k][:120].strip()))
+                else:
+                    crashed.append((k, "hang" if rc1 == 124 else rc1))
+                    if rc1 == 124:
+                        hangs += 1
+                        HANGS[0] += 1
+            else:
+                crashed.append((k, rc))
+        if hangs >= 2 or HANGS[0] >= 3:
+            for j in range(k + 1, len(lines)):
+                crashed.append((j, "not-run-after-repeated-hangs"))
+            break
         start = k + 1
         if len(crashed) > 25:
             for j in range(start, len(lines)):
@@ -1097,7 +1603,10 @@ def run_stream(chk, label, bins, tag, drv, cases, kthr, sthr, stats):
     if drv and midx:
         lines_m = ["%s %d %d %d %s\n" % (cases[i][1], cases[i][3], kthr, sthr, tok_args(cases[i][1], cases[i][4])) for i in midx]
         rc, mo, merr = run_model_parallel(drv, lines_m)
-        if rc != 0 or len(mo) != len(midx):
+        if rc == 124:
+            # a time-out of our own tooling (1500 s) is not a verdict about the property: oracle only for this stream
+            INCONCLUSIVE.append("%s: extracted-model driver timed out; %d cases judged by the oracle only" % (label, len(midx)))
+        elif rc != 0 or len(mo) != len(midx):
             chk.broke("%s: model driver failed (rc=%s, %d/%d lines)" % (label, rc, len(mo), len(midx)), merr)
         else:
             mout = dict(zip(midx, mo))
@@ -1109,6 +1618,9 @@ def run_stream(chk, label, bins, tag, drv, cases, kthr, sthr, stats):
         chk.count(key, nontrivial)
         stats["by_op"][op] = stats["by_op"].get(op, 0) + 1
         stats["by_variant"][v] = stats["by_variant"].get(v, 0) + 1
+        bs = stats["by_stream"].setdefault(label, {})
+        fkey = "%s p=%s" % (fk, p if p < 2 ** 40 else "2^100+277")
+        bs[fkey] = bs.get(fkey, 0) + 1
         fn = "%s p=%d" % (FIELD_NAMES[fk], p) if p < 2 ** 40 else "%s p=2^100+277" % FIELD_NAMES[fk]
         stats["by_field"][fn] = stats["by_field"].get(fn, 0) + 1
         mx = max([len(x) for x in a if isinstance(x, list)] + [0])
@@ -1197,7 +1709,7 @@ def main(tier, replay=None):
     if kth is None or sth is None:
         chk.broke("cannot read KARA_THRESHOLD / SQR_THRESHOLD from givpoly1kara.inl")
         kth, sth = kth or 50, sth or 50
-    stats = {"by_op": {}, "by_variant": {}, "by_field": {}, "by_size": {}, "corr": 0, "lazy_unnormalised": {}, "oracle_only": 0,
+    stats = {"by_stream": {}, "by_op": {}, "by_variant": {}, "by_field": {}, "by_size": {}, "corr": 0, "lazy_unnormalised": {}, "oracle_only": 0,
              "in_known_defect_class_oracle_only": 0, "not_run": 0,
              "known_classes": set((k.get("site"), k.get("klass")) for k in vf.load_known()
                                   if k.get("property") == "C08" and k.get("status") == "known")}
@@ -1234,6 +1746,12 @@ def main(tier, replay=None):
         run_stream(chk, "exponent-boundaries", bins, "t2", drv, exponent_cases(rng, tier), 2, 2, stats)
         run_stream(chk, "structured thr2", bins, "t2", drv, structured_cases(rng, tier, 2, FIELDS_SMALLTHR), 2, 2, stats)
         run_stream(chk, "structured real", bins, "real", drv, structured_cases(rng, tier, kth, FIELDS_REAL), kth, sth, stats)
+        run_stream(chk, "range-helpers thr2", bins, "t2", drv, range_cases(rng, 2, FIELDS_SMALLTHR, False), 2, 2, stats)
+        run_stream(chk, "range-helpers real", bins, "real", drv, range_cases(rng, kth, FIELDS_REAL, True), kth, sth, stats)
+        run_stream(chk, "det-products thr2", bins, "t2", drv, det_product_cases(rng, 2, FIELDS_SMALLTHR), 2, 2, stats)
+        run_stream(chk, "det-products real", bins, "real", drv, det_product_cases(rng, kth, FIELDS_REAL), kth, sth, stats)
+        run_stream(chk, "det-division thr2", bins, "t2", drv, det_division_cases(rng, 2, FIELDS_SMALLTHR), 2, 2, stats)
+        run_stream(chk, "det-division real", bins, "real", drv, det_division_cases(rng, kth, FIELDS_REAL), kth, sth, stats)
         run_stream(chk, "unnormalised-operands", bins, "t2", drv, unnormalised_cases(rng, 6 if tier == "quick" else 60, FIELDS_SMALLTHR), 2, 2, stats)
         exv = ["mul.rpq", "karamul", "sqr", "divmod", "modin", "gcd.2", "gcd.5", "sub.rpq", "add.rpq", "lcm", "invmod", "pdivmod", "pmod"]
         if tier == "quick":
@@ -1265,6 +1783,14 @@ def main(tier, replay=None):
     chk.cov["thresholds_from_source"] = [kth, sth]
     chk.cov["distribution_by_op"] = stats["by_op"]
     chk.cov["distribution_by_variant"] = stats["by_variant"]
+    chk.cov["call_forms"] = dict(sorted(stats["by_variant"].items()))
+    chk.cov["call_forms_not_driven"] = CALL_FORMS_NOT_DRIVEN + ["%s: does not instantiate (compile probe)" % v for v, f in sorted(OPTIONAL_VARIANTS.items()) if not have.get(f)]
+    chk.cov["call_forms_declared_but_zero_cases"] = sorted(v for v in VARIANTS if v not in stats["by_variant"] and not (v in OPTIONAL_VARIANTS and not have.get(OPTIONAL_VARIANTS[v])))
+    chk.cov["cases_by_stream_and_field"] = stats["by_stream"]
+    chk.cov["deterministic_classes"] = {"shapes": SHAPES, "pads_of_range_helpers": PADS, "quotient_kinds": Q_KINDS, "remainder_kinds": R_KINDS,
+                                        "divisor_kinds": B_KINDS, "sizes_thr2": det_sizes(2), "sizes_real": det_sizes(kth)}
+    chk.cov["inconclusive"] = INCONCLUSIVE[:40]
+    chk.cov["operations_without_model_oracle_only"] = sorted(NO_MODEL)
     chk.cov["distribution_by_field"] = stats["by_field"]
     chk.cov["distribution_by_max_operand_size"] = stats["by_size"]
     chk.cov["results_with_leading_zeros_for_operands_with_leading_zeros"] = stats["lazy_unnormalised"]
